@@ -19,14 +19,27 @@ class PieceSys(HSystem):
     events: ('feed', k) the next k whole blocks with padding=False (k=0: an empty piece);
             ('close',) the rest with padding=True."""
 
-    def __init__(self, a, nblocks, tail):
+    def __init__(self, a, nblocks, tail, salt=None):
+        self.salt = salt
         self.a, self.nb, self.tail = a, nblocks, tail
         self.bl = HF.blocklen(a)
         self.M = expander(nblocks * self.bl + tail, 1 + nblocks)
 
+    def init(self, o):
+        if self.salt is None:
+            o.initstate()
+        else:
+            o.initstate(salt=self.salt)
+
+    def refdigest(self):
+        if self.salt is None:
+            return HF.ref(self.a, self.M)
+        from mc.refs import blake as RB
+        return RB.blake(int(self.a[5:]), self.M, salt=self.salt)
+
     def fresh(self):
         o = HF.make(self.a)
-        o.initstate()
+        self.init(o)
         return {'o': o, 'pos': 0, 'closed': False}
 
     def canon(self, o):
@@ -57,7 +70,7 @@ class PieceSys(HSystem):
             ctx.eq(K + cls, res, ('ok', None))
             # confluence: the same prefix fed in one piece to a fresh object
             f = HF.make(self.a)
-            f.initstate()
+            self.init(f)
             if o['pos']:
                 f.update(self.M[:o['pos']], padding=False)
             ctx.eq(K + cls + '/state', hstate(o['o']), hstate(f))
@@ -65,7 +78,7 @@ class PieceSys(HSystem):
         else:
             empty_final = o['final_len'] == 0 and len(self.M) > 0
             cls = '/close-with-empty-final-piece-after-whole-blocks' if empty_final else '/close'
-            ctx.eq(K + cls, res, ('ok', HF.ref(self.a, self.M)))
+            ctx.eq(K + cls + ('/salted' if self.salt is not None else ''), res, ('ok', self.refdigest()))
 
 
 def systems(tier):
@@ -84,6 +97,12 @@ def systems(tier):
             if tier == 'quick' and a not in ('md5', 'sha1', 'sha256', 'sha512', 'blake256', 'blake512', 'blake2s', 'blake2b'):
                 continue
             d['%s/%d+%d' % (a, nb, 1)] = PieceSys(a, nb, 1)
+    # BLAKE with a non-palindromic salt given to initstate
+    for a in HF.BLAKES:
+        w = 64 if HF.blocklen(a) == 128 else 32
+        salt = int.from_bytes(expander(4 * w // 8, 21), 'big')
+        for nb, t in ((2, 1), (3, 0)):
+            d['%s/salted/%d+%d' % (a, nb, t)] = PieceSys(a, nb, t, salt=salt)
     return d
 
 
@@ -106,7 +125,10 @@ def run_longpiece(ctx, pt):
 
 
 def pts_nil_long(tier):
-    return [(n, cuts) for n in ((66000, 70000) if tier == 'thorough' else (66000,)) for cuts in ((65530,), (65540, 65600), (100, 65534, 65536))]
+    pts = [(n, cuts) for n in ((66000, 70000) if tier == 'thorough' else (66000,)) for cuts in ((65530,), (65540, 65600), (100, 65534, 65536))]
+    if tier == 'thorough':
+        pts += [((1 << 20) + 700, ((1 << 20) + 64,)), ((1 << 20) + 700, (600000, (1 << 20) + 100))]     # more than 1 MiB through one object
+    return pts
 
 
 def run_nil_long(ctx, pt):
@@ -169,7 +191,7 @@ def subchecks():
         Sub('long-pieces', pts_longpiece, run_longpiece, engine='H', exhaustive=False,
             bound='one non-final piece of 257 (thorough also 300) blocks, one more block, closing piece of 7 bytes; 7 hashes (thorough all 16)'),
         Sub('nilsimsa-long-streams', pts_nil_long, run_nil_long, engine='H', exhaustive=False,
-            bound='Nilsimsa stream of 66000 (thorough also 70000) bytes cut at {65530}, {65540,65600}, {100,65534,65536} vs the one-shot digest'),
+            bound='Nilsimsa stream of 66000 (thorough also 70000, and 1 MiB + 700) bytes cut at {65530}, {65540,65600}, {100,65534,65536} vs the one-shot digest'),
         Sub('nilsimsa-cuts', pts_nil, run_nil, engine='D',
             bound='Nilsimsa targets {53,17} x 2 alphabets x every message length 0..12 (thorough 0..16) x every 1-cut and 2-cut position; lengths {35,36,45,67} (thorough 8 lengths up to 100, across the digest threshold steps) x every 1-cut and every 7th second cut'),
     ]
